@@ -1,4 +1,5 @@
 import ChiModel.ShapeEta
+import ChiModel.TopNames
 set_option linter.unusedSectionVars false
 set_option linter.unusedSimpArgs false
 set_option linter.unusedVariables false
@@ -555,5 +556,409 @@ theorem C02_name_of_position (subs : List SubModel) (nIds : Nat) (llNames topNam
   have := hflat nIds i (hierOff subs k + d) hi (by omega)
   rw [hcut] at this
   rw [this, hr]
+
+end ChiModel
+
+/-! ## population-level names: defaults, renaming, reset (model: `ChiModel/TopNames.lean`) -/
+
+namespace ChiModel
+namespace TopNames
+
+/-- blocks of `m` equal entries: entry `p·m + d` is the `p`-th block's value -/
+theorem get_flatMap_replicate {β γ : Type} (g : β → γ) (m : Nat) : ∀ (l : List β) (p d : Nat), d < m →
+    (l.flatMap (fun x => List.replicate m (g x)))[p * m + d]? = (l[p]?).map g
+  | [], p, d, _ => by simp
+  | x :: xs, 0, d, hd => by
+    simp only [List.flatMap_cons, Nat.zero_mul, Nat.zero_add, List.getElem?_cons_zero, Option.map_some]
+    rw [List.getElem?_append_left (by simpa using hd)]
+    simp [List.getElem?_replicate, hd]
+  | x :: xs, p + 1, d, hd => by
+    simp only [List.flatMap_cons, List.getElem?_cons_succ]
+    rw [List.getElem?_append_right (by simp [Nat.succ_mul]; omega)]
+    have : (p + 1) * m + d - (List.replicate m (g x)).length = p * m + d := by
+      simp [Nat.succ_mul]; omega
+    rw [this]
+    exact get_flatMap_replicate g m xs p d hd
+
+theorem length_flatMap_replicate {β γ : Type} (g : β → γ) (m : Nat) : ∀ (l : List β),
+    (l.flatMap (fun x => List.replicate m (g x))).length = l.length * m
+  | [] => by simp
+  | x :: xs => by
+    simp only [List.flatMap_cons, List.length_append, List.length_replicate, List.length_cons,
+      length_flatMap_replicate g m xs, Nat.succ_mul]
+    omega
+
+theorem length_defaultRaw (k : Kind) (nDim nIds : Nat) :
+    (defaultRaw k nDim nIds).length = k.perDim nIds * nDim := by
+  cases k with
+  | hetero => simp only [defaultRaw, Kind.perDim]; rw [length_flatMap_replicate]; simp
+  | _ => simp [defaultRaw, Kind.perDim, Nat.two_mul]
+
+/-- the raw default name at `p·nDim + d` is the label of row `p` -/
+theorem defaultRaw_get (k : Kind) (nDim nIds p d : Nat) (hp : p < k.perDim nIds) (hd : d < nDim) :
+    (defaultRaw k nDim nIds)[p * nDim + d]? = some (label k p) := by
+  have two : ∀ (a b : String), p < 2 →
+      (List.replicate nDim a ++ List.replicate nDim b)[p * nDim + d]? = some (if p = 0 then a else b) := by
+    intro a b h2
+    rcases p with _ | _ | p
+    · simp [List.getElem?_append_left, List.getElem?_replicate, hd]
+    · rw [List.getElem?_append_right (by simp)]
+      simp [List.getElem?_replicate, hd]
+    · omega
+  cases k with
+  | gauss c => exact two _ _ (by simpa [Kind.perDim] using hp)
+  | logn c => exact two _ _ (by simpa [Kind.perDim] using hp)
+  | trunc => exact two _ _ (by simpa [Kind.perDim] using hp)
+  | pooled =>
+    have : p = 0 := by simpa [Kind.perDim] using hp
+    subst this
+    simp [defaultRaw, label, List.getElem?_replicate, hd]
+  | hetero =>
+    simp only [defaultRaw, label]
+    rw [get_flatMap_replicate idLabel nDim _ p d hd]
+    have : p < nIds := by simpa [Kind.perDim] using hp
+    simp [List.getElem?_range, this]
+
+theorem length_withDims (nDim : Nat) (dims raw : List String) : (withDims nDim dims raw).length = raw.length := by
+  simp [withDims]
+
+theorem withDims_get (nDim : Nat) (dims raw : List String) (j : Nat) (r : String)
+    (hr : raw[j]? = some r) :
+    (withDims nDim dims raw)[j]? = some (r ++ " " ++ dims.getD (j % nDim) "") := by
+  have hj : j < raw.length := by
+    rcases Nat.lt_or_ge j raw.length with h | h
+    · exact h
+    · rw [List.getElem?_eq_none_iff.mpr h] at hr; cases hr
+  have hg : raw[j] = r := by
+    have := List.getElem?_eq_getElem hj
+    rw [hr] at this; exact (Option.some.inj this).symm
+  simp [withDims, List.getElem?_map, List.getElem?_range, hj, List.getD_eq_getElem?_getD, hr, hg]
+
+theorem length_withCovs (nCov : Nat) (raw : List String) : (withCovs nCov raw).length = raw.length := by
+  simp [withCovs]
+
+theorem withCovs_get (nCov : Nat) (raw : List String) (j : Nat) (r : String) (hr : raw[j]? = some r) :
+    (withCovs nCov raw)[j]? = some (r ++ " " ++ covLabel (j % nCov)) := by
+  have hj : j < raw.length := by
+    rcases Nat.lt_or_ge j raw.length with h | h
+    · exact h
+    · rw [List.getElem?_eq_none_iff.mpr h] at hr; cases hr
+  have hg : raw[j] = r := by
+    have := List.getElem?_eq_getElem hj
+    rw [hr] at this; exact (Option.some.inj this).symm
+  simp [withCovs, List.getElem?_map, List.getElem?_range, hj, List.getD_eq_getElem?_getD, hr, hg]
+
+
+/-! ### one sub-model -/
+
+theorem reset_basePub (s : SubModel) (st : St) :
+    (st.reset s).basePub s = withDims s.nDim st.dims (defaultRaw s.kind s.nDim st.nIds) := by
+  simp [St.reset, St.refreshCov, St.basePub]
+
+theorem reset_covRaw (s : SubModel) (st : St) :
+    (st.reset s).covRaw = covRawOf s.nDim s.nCov s.sel ((st.reset s).basePub s) := by
+  simp [St.reset, St.refreshCov, St.basePub]
+
+theorem length_covRawOf (nDim nCov : Nat) (sel : List (Nat × Nat)) (bp : List String) :
+    (covRawOf nDim nCov sel bp).length = sel.length * nCov := by
+  unfold covRawOf
+  exact length_flatMap_replicate (fun pd : Nat × Nat => bp.getD (pd.1 * nDim + pd.2) "") nCov sel
+
+theorem length_reset_pub (s : SubModel) (st : St) : ((st.reset s).pub s).length = s.nTop st.nIds := by
+  unfold St.pub
+  rw [List.length_append, length_withCovs, reset_covRaw, length_covRawOf, reset_basePub, length_withDims,
+    length_defaultRaw]
+  simp [SubModel.nTop, SubModel.nPop, Nat.mul_comm]
+
+theorem idx_lt (a b p d : Nat) (hp : p < a) (hd : d < b) : p * b + d < a * b := by
+  calc p * b + d < p * b + b := by omega
+    _ = (p + 1) * b := by rw [Nat.succ_mul]
+    _ ≤ a * b := Nat.mul_le_mul_right _ hp
+
+theorem reset_basePub_get (s : SubModel) (st : St) (p d : Nat) (hp : p < s.kind.perDim st.nIds)
+    (hd : d < s.nDim) :
+    ((st.reset s).basePub s)[p * s.nDim + d]? = some (label s.kind p ++ " " ++ st.dims.getD d "") := by
+  rw [reset_basePub, withDims_get _ _ _ _ _ (defaultRaw_get s.kind s.nDim st.nIds p d hp hd)]
+  rw [Nat.mul_add_mod_of_lt hd]
+
+/-- default names of ONE sub-model, population parameters: position `p·n_dim + d` — the entry that
+    `SubModel.th` reads as row `p` (location / scale / the pooled value / INDIVIDUAL `p`), dimension `d` —
+    is called `<label of row p> <name of dimension d>` -/
+theorem reset_pub_get (s : SubModel) (st : St) (p d : Nat) (hp : p < s.kind.perDim st.nIds)
+    (hd : d < s.nDim) :
+    ((st.reset s).pub s)[p * s.nDim + d]? = some (label s.kind p ++ " " ++ st.dims.getD d "") := by
+  unfold St.pub
+  rw [List.getElem?_append_left]
+  · exact reset_basePub_get s st p d hp hd
+  · rw [reset_basePub, length_withDims, length_defaultRaw]
+    exact idx_lt _ _ p d hp hd
+
+/-- default names of ONE sub-model, covariate coefficients: the coefficient of covariate `c` for the
+    `k`-th selected population parameter `(p, d)` — the entry `SubModel.th` reads as
+    `top (nPop + k·nCov + c)` — is called `<name of that population parameter> Cov. c+1` -/
+theorem reset_pub_cov_get (s : SubModel) (st : St) (k c p d : Nat) (hk : s.sel[k]? = some (p, d))
+    (hc : c < s.nCov) (hp : p < s.kind.perDim st.nIds) (hd : d < s.nDim) :
+    ((st.reset s).pub s)[s.nPop st.nIds + (k * s.nCov + c)]?
+      = some (label s.kind p ++ " " ++ st.dims.getD d "" ++ " " ++ covLabel c) := by
+  unfold St.pub
+  have hl : ((st.reset s).basePub s).length = s.nPop st.nIds := by
+    rw [reset_basePub, length_withDims, length_defaultRaw]; rfl
+  rw [List.getElem?_append_right (by omega), hl, Nat.add_sub_cancel_left]
+  have hraw : ((st.reset s).covRaw)[k * s.nCov + c]?
+      = some (label s.kind p ++ " " ++ st.dims.getD d "") := by
+    rw [reset_covRaw]
+    unfold covRawOf
+    rw [get_flatMap_replicate
+      (fun pd : Nat × Nat => ((st.reset s).basePub s).getD (pd.1 * s.nDim + pd.2) "") s.nCov s.sel k c hc, hk]
+    simp only [Option.map_some, List.getD_eq_getElem?_getD, reset_basePub_get s st p d hp hd,
+      Option.getD_some]
+  rw [withCovs_get _ _ _ _ hraw, Nat.mul_add_mod_of_lt hc]
+
+/-- renaming: position `j` carries the `j`-th name the user gave (plus the dimension / covariate suffix) -/
+theorem rename_pub_get (s : SubModel) (st : St) (names : List String)
+    (hlen : names.length = st.raw.length + st.covRaw.length) (j : Nat) :
+    (j < st.raw.length →
+      ((st.rename names).pub s)[j]? = some (names.getD j "" ++ " " ++ st.dims.getD (j % s.nDim) "")) ∧
+    (j < st.covRaw.length →
+      ((st.rename names).pub s)[st.raw.length + j]?
+        = some (names.getD (st.raw.length + j) "" ++ " " ++ covLabel (j % s.nCov))) := by
+  have hbl : ((st.rename names).basePub s).length = st.raw.length := by
+    simp [St.basePub, St.rename, length_withDims]; omega
+  constructor
+  · intro hj
+    unfold St.pub
+    rw [List.getElem?_append_left (by omega)]
+    have : (names.take st.raw.length)[j]? = some (names.getD j "") := by
+      rw [List.getElem?_take_of_lt hj, List.getD_eq_getElem?_getD,
+        List.getElem?_eq_getElem (by omega : j < names.length)]
+      simp
+    simpa [St.basePub, St.rename] using withDims_get s.nDim st.dims _ j _ this
+  · intro hj
+    unfold St.pub
+    rw [List.getElem?_append_right (by omega), hbl, Nat.add_sub_cancel_left]
+    have : (names.drop st.raw.length)[j]? = some (names.getD (st.raw.length + j) "") := by
+      rw [List.getElem?_drop, List.getD_eq_getElem?_getD,
+        List.getElem?_eq_getElem (by omega : st.raw.length + j < names.length)]
+      simp
+    simpa [St.rename] using withCovs_get s.nCov _ j _ this
+
+
+/-! ### the composite -/
+
+theorem topOff_zero (subs : List SubModel) (nIds : Nat) : topOff subs nIds 0 = 0 := by
+  simp [topOff, totTop]
+theorem topOff_cons_succ (s : SubModel) (ss : List SubModel) (nIds k : Nat) :
+    topOff (s :: ss) nIds (k + 1) = s.nTop nIds + topOff ss nIds k := by
+  simp [topOff, totTop]
+
+/-- after a reset of everything, the names of sub-model `k` start at `topOff k` — the sum of its
+    predecessors' parameter counts, the same offset at which `C02_call_offsets` places its VALUES -/
+theorem pubAll_resetAll_get (nIds : Nat) : ∀ (subs : List SubModel) (sts : List St) (k j : Nat) (st : St)
+    (hk : k < subs.length), (∀ st' ∈ sts, st'.nIds = nIds) → sts[k]? = some st → j < (subs[k]).nTop nIds →
+    (pubAll subs (resetAll subs sts))[topOff subs nIds k + j]? = ((st.reset (subs[k])).pub (subs[k]))[j]?
+  | [], _, k, _, _, hk, _, _, _ => by simp at hk
+  | s :: ss, [], k, _, _, _, _, hst, _ => by simp at hst
+  | s :: ss, st0 :: sts, 0, j, st, _, hn, hst, hj => by
+    simp only [List.getElem?_cons_zero, Option.some.injEq] at hst
+    subst hst
+    simp only [List.getElem_cons_zero] at hj ⊢
+    have h0 := hn st0 (by simp)
+    rw [topOff_zero, Nat.zero_add]
+    simp only [resetAll, pubAll]
+    rw [List.getElem?_append_left (by rw [length_reset_pub, h0]; exact hj)]
+  | s :: ss, st0 :: sts, k + 1, j, st, hk, hn, hst, hj => by
+    simp only [List.getElem?_cons_succ] at hst
+    simp only [List.getElem_cons_succ] at hj ⊢
+    have h0 := hn st0 (by simp)
+    simp only [resetAll, pubAll]
+    rw [topOff_cons_succ, List.getElem?_append_right (by rw [length_reset_pub, h0]; omega), length_reset_pub, h0]
+    have : s.nTop nIds + topOff ss nIds k + j - s.nTop nIds = topOff ss nIds k + j := by omega
+    rw [this]
+    exact pubAll_resetAll_get nIds ss sts k j st (by simpa using hk)
+      (fun st' h => hn st' (by simp [h])) hst hj
+
+/-! ### what a reset gives does not depend on the names set before -/
+
+/-- what a reset reads: the number of individuals and the dimension names -/
+def frame (sts : List St) : List (Nat × List String) := sts.map (fun st => (st.nIds, st.dims))
+
+theorem resetAll_of_frame : ∀ (subs : List SubModel) (a b : List St), frame a = frame b →
+    resetAll subs a = resetAll subs b
+  | [], a, b, _ => by cases a <;> cases b <;> simp [resetAll]
+  | s :: ss, [], [], _ => rfl
+  | s :: ss, [], _ :: _, h => by simp [frame] at h
+  | s :: ss, _ :: _, [], h => by simp [frame] at h
+  | s :: ss, x :: xs, y :: ys, h => by
+    simp only [frame, List.map_cons, List.cons.injEq, Prod.mk.injEq] at h
+    obtain ⟨⟨h1, h2⟩, h3⟩ := h
+    simp only [resetAll, List.cons.injEq]
+    refine ⟨?_, resetAll_of_frame ss xs ys h3⟩
+    simp [St.reset, St.refreshCov, St.basePub, h1, h2]
+
+theorem frame_renameAll : ∀ (sts : List St) (names : List String), frame (renameAll sts names) = frame sts
+  | [], _ => rfl
+  | st :: sts, names => by
+    simp only [renameAll, frame, List.map_cons, List.cons.injEq]
+    exact ⟨by simp [St.rename], frame_renameAll sts _⟩
+
+theorem frame_resetAll : ∀ (subs : List SubModel) (sts : List St), subs.length = sts.length →
+    frame (resetAll subs sts) = frame sts
+  | [], [], _ => rfl
+  | [], _ :: _, h => by simp at h
+  | _ :: _, [], h => by simp at h
+  | s :: ss, st :: sts, h => by
+    simp only [resetAll, frame, List.map_cons, List.cons.injEq]
+    exact ⟨by simp [St.reset, St.refreshCov], frame_resetAll ss sts (by simpa using h)⟩
+
+theorem frame_resetSub : ∀ (k : Nat) (subs : List SubModel) (sts : List St),
+    frame (resetSub k subs sts) = frame sts
+  | 0, [], sts => by simp [resetSub]
+  | 0, s :: ss, [] => by simp [resetSub]
+  | 0, s :: ss, st :: sts => by simp [resetSub, frame, St.reset, St.refreshCov]
+  | k + 1, [], sts => by simp [resetSub]
+  | k + 1, s :: ss, [] => by simp [resetSub]
+  | k + 1, s :: ss, st :: sts => by
+    simp only [resetSub, frame, List.map_cons, List.cons.injEq, true_and]
+    exact frame_resetSub k ss sts
+
+/-- the calls that touch names only (not the dimension names, not the number of individuals) -/
+def Op.namesOnly : Op → Bool
+  | .reset | .rename _ | .resetSub _ | .renameFree _ _ => true
+  | _ => false
+
+theorem frame_step (subs : List SubModel) (sts sts' : List St) (op : Op) (hlen : subs.length = sts.length)
+    (hop : op.namesOnly = true) (h : step subs sts op = .ok sts') : frame sts' = frame sts := by
+  cases op with
+  | reset => simp only [step, Except.ok.injEq] at h; subst h; exact frame_resetAll subs sts hlen
+  | rename names =>
+    simp only [step] at h
+    split at h
+    · cases h
+    · simp only [Except.ok.injEq] at h; subst h; exact frame_renameAll sts names
+  | setDims d => simp [Op.namesOnly] at hop
+  | setNIds n => simp [Op.namesOnly] at hop
+  | resetSub k => simp only [step, Except.ok.injEq] at h; subst h; exact frame_resetSub k subs sts
+  | renameFree mask names =>
+    simp only [step] at h
+    split at h
+    · cases h
+    · simp only [Except.ok.injEq] at h; subst h; exact frame_renameAll sts _
+
+theorem length_of_frame (a b : List St) (h : frame a = frame b) : a.length = b.length := by
+  have := congrArg List.length h
+  simpa [frame] using this
+
+theorem frame_run (subs : List SubModel) : ∀ (ops : List Op) (sts sts' : List St),
+    subs.length = sts.length → (∀ op ∈ ops, op.namesOnly = true) → run subs sts ops = .ok sts' →
+    frame sts' = frame sts
+  | [], sts, sts', _, _, h => by simp only [run, Except.ok.injEq] at h; rw [h]
+  | op :: ops, sts, sts', hlen, hops, h => by
+    simp only [run] at h
+    cases hs : step subs sts op with
+    | error e => rw [hs] at h; cases h
+    | ok mid =>
+      rw [hs] at h
+      have hf := frame_step subs sts mid op hlen (hops op (by simp)) hs
+      have := frame_run subs ops mid sts' (by rw [hlen]; exact (length_of_frame _ _ hf).symm)
+        (fun o ho => hops o (by simp [ho])) h
+      rw [this, hf]
+
+
+end TopNames
+
+open TopNames
+
+/-! ### C02: the names published for the population-level positions -/
+
+/-- C02 ("the name published for position k describes exactly the quantity that position k controls"),
+    population-level block, default names. After `set_parameter_names(None)` on a population model that
+    knows `nIds` individuals, the name at offset `topOff k + p·n_dim + d` — the entry that `SubModel.th`
+    (hence `hierCall`, `C02_call_offsets`) reads as row `p`, dimension `d` of sub-model `k` — is
+    `<label of row p> <name of dimension d>`, where the label of a HETEROGENEOUS model's row `p` is
+    `ID p+1`: individual by individual, not dimension by dimension. -/
+theorem C02_default_top_name_of_position (subs : List SubModel) (sts : List St) (nIds k p d : Nat) (st : St)
+    (hk : k < subs.length) (hn : ∀ st' ∈ sts, st'.nIds = nIds) (hst : sts[k]? = some st)
+    (hp : p < (subs[k]).kind.perDim nIds) (hd : d < (subs[k]).nDim) :
+    (pubAll subs (resetAll subs sts))[topOff subs nIds k + (p * (subs[k]).nDim + d)]?
+      = some (label (subs[k]).kind p ++ " " ++ st.dims.getD d "") := by
+  have hnst : st.nIds = nIds := hn st (List.mem_of_getElem? hst)
+  have hj : p * (subs[k]).nDim + d < (subs[k]).nTop nIds := by
+    have := idx_lt _ _ p d hp hd
+    simp only [SubModel.nTop, SubModel.nPop]; omega
+  rw [pubAll_resetAll_get nIds subs sts k _ st hk hn hst hj]
+  exact reset_pub_get (subs[k]) st p d (by rw [hnst]; exact hp) hd
+
+/-- … and the coefficient of covariate `c` for the `m`-th selected population parameter `(p, d)` of
+    sub-model `k` (read by `SubModel.th` at `nPop + m·nCov + c`) is called after that parameter. -/
+theorem C02_default_cov_name_of_position (subs : List SubModel) (sts : List St) (nIds k m c p d : Nat) (st : St)
+    (hk : k < subs.length) (hn : ∀ st' ∈ sts, st'.nIds = nIds) (hst : sts[k]? = some st)
+    (hm : (subs[k]).sel[m]? = some (p, d)) (hc : c < (subs[k]).nCov)
+    (hp : p < (subs[k]).kind.perDim nIds) (hd : d < (subs[k]).nDim) :
+    (pubAll subs (resetAll subs sts))[topOff subs nIds k + ((subs[k]).nPop nIds + (m * (subs[k]).nCov + c))]?
+      = some (label (subs[k]).kind p ++ " " ++ st.dims.getD d "" ++ " " ++ covLabel c) := by
+  have hnst : st.nIds = nIds := hn st (List.mem_of_getElem? hst)
+  have hml : m < (subs[k]).sel.length := by
+    rcases Nat.lt_or_ge m (subs[k]).sel.length with h | h
+    · exact h
+    · rw [List.getElem?_eq_none_iff.mpr h] at hm; cases hm
+  have hj : (subs[k]).nPop nIds + (m * (subs[k]).nCov + c) < (subs[k]).nTop nIds := by
+    have := idx_lt _ _ m c hml hc
+    simp only [SubModel.nTop]
+    rw [Nat.mul_comm (subs[k]).nCov]; omega
+  rw [pubAll_resetAll_get nIds subs sts k _ st hk hn hst hj, ← hnst]
+  exact reset_pub_cov_get (subs[k]) st m c p d hm hc (by rw [hnst]; exact hp) hd
+
+/-- C02, heterogeneous dimensions ("each individual its own population-level entry"): the entry that
+    individual `i` reads for dimension `d` is `top (i·n_dim + d)`, and that entry's default name is
+    `ID i+1 <dimension d>`. -/
+theorem C02_hetero_name_matches_value {α : Type} [Add α] [Sub α] [Mul α] [Div α] [Neg α] [ScalarFns α]
+    (s : SubModel) (hk : s.kind = .hetero) (hc : s.nCov = 0) (st : St) (top : Nat → α) (cov : Nat → Nat → α)
+    (i d : Nat) (hi : i < st.nIds) (hd : d < s.nDim) :
+    s.th st.nIds top cov i i d = top (i * s.nDim + d) ∧
+    ((st.reset s).pub s)[i * s.nDim + d]? = some (idLabel i ++ " " ++ st.dims.getD d "") := by
+  refine ⟨by simp [SubModel.th, hc], ?_⟩
+  have := reset_pub_get s st i d (by rw [hk]; simpa [Kind.perDim] using hi) hd
+  rw [this, hk]; rfl
+
+/-- C02 (call histories): whatever names were set, reset or set through a reduced wrapper before — as
+    long as the dimension names and the number of individuals were left alone — a reset gives the names a
+    reset of the original model gives, i.e. those of `C02_default_top_name_of_position`. -/
+theorem C02_reset_forgets_naming_history (subs : List SubModel) (sts sts' : List St) (ops : List TopNames.Op)
+    (hlen : subs.length = sts.length) (hops : ∀ op ∈ ops, op.namesOnly = true)
+    (h : run subs sts ops = .ok sts') :
+    resetAll subs sts' = resetAll subs sts :=
+  resetAll_of_frame subs sts' sts (frame_run subs ops sts sts' hlen hops h)
+
+/-- C02 (renaming): after `set_parameter_names(names)` on a sub-model, position `j` carries the `j`-th
+    name the user gave, followed by the name of the dimension (`j mod n_dim`) resp. covariate
+    (`j mod n_cov`) it belongs to. -/
+theorem C02_rename_name_of_position (s : SubModel) (st : St) (names : List String)
+    (hlen : names.length = st.raw.length + st.covRaw.length) (j : Nat) :
+    (j < st.raw.length →
+      ((st.rename names).pub s)[j]? = some (names.getD j "" ++ " " ++ st.dims.getD (j % s.nDim) "")) ∧
+    (j < st.covRaw.length →
+      ((st.rename names).pub s)[st.raw.length + j]?
+        = some (names.getD (st.raw.length + j) "" ++ " " ++ covLabel (j % s.nCov))) :=
+  rename_pub_get s st names hlen j
+
+/-- C02 (`set_n_ids`): a heterogeneous model that is told a different number of individuals publishes
+    the default names for that number (names set before are dropped); told the same number, or any
+    other kind of model, it keeps its names. -/
+theorem C02_setNIds_names (s : SubModel) (st : St) (n : Nat) :
+    (s.kind = .hetero → n ≠ st.nIds → st.setNIds s n = St.reset s { st with nIds := n }) ∧
+    ((s.kind ≠ .hetero ∨ n = st.nIds) → st.setNIds s n = st) := by
+  constructor
+  · intro hk hn
+    simp [St.setNIds, St.reset, hk, hn]
+  · intro h
+    rcases h with h | h
+    · simp [St.setNIds, h]
+    · simp [St.setNIds, h]
+
+/-- non-vacuity / the layout that is NOT published: two individuals, dimensions `b`, `S` -/
+example : (St.pub ⟨.hetero, 2, 0, []⟩ (St.reset ⟨.hetero, 2, 0, []⟩ ⟨2, ["b", "S"], ["x", "y", "z", "w"], []⟩))
+    = ["ID 1 b", "ID 1 S", "ID 2 b", "ID 2 S"] := by decide
+example : (St.pub ⟨.hetero, 2, 0, []⟩ ⟨2, ["b", "S"], ["ID 1", "ID 2", "ID 1", "ID 2"], []⟩)
+    ≠ (St.pub ⟨.hetero, 2, 0, []⟩ (St.reset ⟨.hetero, 2, 0, []⟩ ⟨2, ["b", "S"], [], []⟩)) := by decide
 
 end ChiModel
